@@ -511,6 +511,7 @@ class Model {
             e.died = true;
             e.count = 1;
             retire_predecessors(e);
+            leave_sequences(e);   // saturated: leaves its sequences (C06)
           }
           d.reqs.clear();
         }
